@@ -41,14 +41,28 @@ def setup():
         k4 = f(xx + h * k3, u, pv)
         xx = xx + h / 6 * (k1 + 2 * k2 + 2 * k3 + k4)
     _S["plant_step"] = ca.Function("plant_step", [x, u], [xx])
+    _S["model"] = m
+    _S["pv"] = pv
     _S["eqs"] = eqs
     _S["pd"] = pd
     return _S
 
 
-def run(mode, x0, target, yaw_sp, tf, dt=0.01):
+def dae_step(dt):
+    """the plant advanced through the model's integrator interface (`model["dae"]` with cvodes), as scripts/rdd2_sim.py does"""
+    S = setup()
+    k = ("dae_step", dt)
+    if k not in _S:
+        integ = ca.integrator("plant_cvodes", "cvodes", S["model"]["dae"], 0.0, dt, {"abstol": 1e-10, "reltol": 1e-10})
+        pv = S["pv"]
+        _S[k] = lambda x, u: integ(x0=x, u=u, p=pv, z0=0)["xf"]
+    return _S[k]
+
+
+def run(mode, x0, target, yaw_sp, tf, dt=0.01, plant="rk4"):
     """returns dict(t, X (states), U (motor commands), err (first exception or None))"""
     S = setup()
+    step_fn = S["plant_step"] if plant == "rk4" else dae_step(dt)
     E, pd = S["eqs"], S["pd"]
     m, g = pd["m"], pd["g"]
     thrust_trim = m * g
@@ -80,7 +94,7 @@ def run(mode, x0, target, yaw_sp, tf, dt=0.01):
         M, i0, e0, de0 = a(o[0]), a(o[1]), a(o[2]), a(o[3])
         u = a(E["f_alloc"](F_max, l, CM, CT, thrust, M)[0])
         U[k] = u
-        x = a(S["plant_step"](x, u))
+        x = a(step_fn(x, u))
         X[k + 1] = x
         if not np.all(np.isfinite(x)):
             return dict(X=X[:k + 2], U=U[:k + 1], dt=dt, nan_at=k + 1)
